@@ -18,15 +18,31 @@ MANIFEST = {
             "enumerated quantities are member values of the regenerated simulator enumerations (every count, every traffic amount, "
             "component present / absent / node not ON), that the value `observe` returns is contained in `space` (gymnasium "
             "Discrete/Dict rule), that every `default_observation` is contained, that observing never changes the space, and that "
-            "this holds along every trajectory of states. ACL-carrying components: partial (hypothesis excludes num_rules "
-            "above the ACL's slots and repeated list entries; both are open findings with proved counterexamples). Tie: "
-            "enum members, Discrete sizes, clamps, status codes, default literals and the threshold categorisers regenerated from "
-            "the source (Gen/ObsEnums, Gen/ObsTables; obligations C02_gen_*) + differential rig R-obs on the real classes "
-            "(synthetic states) and on PrimaiteGymEnv trajectories (nested and flattened membership).",
+            "this holds along every trajectory of states. The objects are also derived FROM THE SCENARIO'S WORDS: Model/ObsConfig "
+            "models every ConfigSchema default, the push-down of every from_config, padding/truncation and Python truthiness; "
+            "every object built from an accepted observation_space section satisfies the invariant the in-space theorems need "
+            "(C02_raw_build_ok), so membership holds for everything a scenario can configure (C02_built_run_in_space). "
+            "Environment level: nested or flattened, every observation of an episode is a member of the space observation_space "
+            "declares during THAT episode, the space does not change within an episode, and a constant schedule declares one space "
+            "(C02_env_*); flattening a member gives a 0/1 vector whose length is a function of the space only. "
+            "PARTIAL (explicit decidable hypotheses, counterexamples proved): ACL-carrying components exclude num_rules above the "
+            "ACL's slots (F-6, open); flattened results exclude spaces with an empty sub-dictionary, which gymnasium refuses "
+            "(F-C02-2, open). Tie: enum members, Discrete sizes, clamps, status codes, default literals, threshold categorisers "
+            "(Gen/ObsEnums, Gen/ObsTables), the ORDER of events in every __init__ (pads/truncations precede every read by "
+            "default_observation), no in-place write through default_observation / cached_obs in any observe, the exact bodies of "
+            "PrimaiteGymEnv.agent / observation_space / action_space / _get_obs and no stored space attribute (Gen/ObsCfgTables; "
+            "obligations C02_gen_*) + differential rig R-obs: the model builds its objects from the same configuration text as the "
+            "implementation (generated scenario-style configurations with explicit lists shorter/equal/longer than their counts, "
+            "per-node overrides, ACL sub-configs, rejected configurations), every object of every tree goes through the "
+            "default/space/ON-observe key-structure oracle, synthetic states, and PrimaiteGymEnv trajectories (shipped, toggled, "
+            "regenerated observation spaces, generated scenarios, shipped and generated episode schedules) with the spaces read "
+            "through the public properties at construction, after every reset and at every step.",
     "note": "C02-specific: float binning int(x/b*9) is modelled on exact rationals; steps where float rounding differs from the exact "
-            "bin are excluded from the value comparison (never from the membership check). gymnasium's flatten is trusted but "
-            "checked on every trajectory step.",
-    "technique": "Lean 4 theorems over an executable model of the observation classes; model tied by regenerated tables and a differential rig",
+            "bin are excluded from the value comparison (never from the membership check). gymnasium's flatten / flatten_space are "
+            "trusted; modelled for Discrete/Dict trees and checked on every trajectory step (length, number of ones, refusal of empty "
+            "Dicts). Action-space constancy is checked by the rig (equality with the space read at construction, and within every "
+            "episode) and tied by the Gen body of action_space; the action manager itself is not modelled here. Ray wrappers are not run.",
+    "technique": "Lean 4 theorems over an executable model of the observation classes and of their construction from the scenario; model tied by regenerated tables and a differential rig",
     "design_ref": "5/C02",
 }
 MODULES = ["PrimaiteModel.Props.C02", "PrimaiteModel.Props.C02Cfg"]
@@ -281,17 +297,17 @@ def env_recipes(ctx: Ctx, rng: Rng, truth: bool = False) -> List[dict]:
     schedules whose episodes observe different things (and one whose episodes are all alike)."""
     out: List[dict] = []
     scen = rig.SCENARIOS if ctx.thorough else rig.SCENARIOS[:6]
-    eps, steps = ctx.scale(2, 3), ctx.scale(30 if truth else 20, 100)
+    eps, steps = ctx.scale(2, 3), ctx.scale(30 if truth else 20, 60)
 
     def add(family, label, **kw):
         out.append(dict({"family": family, "label": label, "traj_seed": rng.next(), "variant_seed": rng.next(), "episodes": eps, "steps": steps,
                          "truth": truth, "chaos": False}, **kw))
     for rel in scen:
-        short = rel.rsplit("/", 1)[-1]
+        short = rel.rsplit("/", 1)[-1] + ("@tests" if rel.startswith("tests/") and any(r != rel and r.endswith("/" + rel.rsplit("/", 1)[-1]) for r in scen) else "")
         add("shipped", short, rel=rel)
-        for i in range(ctx.scale(1, 3)):
+        for i in range(ctx.scale(1, 2)):
             add("toggle", f"{short}#toggle{i}", rel=rel, chaos=truth)
-        for i in range(ctx.scale(2 if truth else 1, 3)):
+        for i in range(ctx.scale(2 if truth else 1, 2)):
             add("regen", f"{short}#regen{i}", rel=rel, chaos=truth)
     for i in range(ctx.scale(9 if truth else 4, 18)):
         add("generated", f"generated#{i}", topology=["lan", "routed", "dmz"][i % 3], size=1 + (i // 3) % 2, episodes=2, steps=ctx.scale(20 if truth else 14, 60),
@@ -309,6 +325,9 @@ def env_recipes(ctx: Ctx, rng: Rng, truth: bool = False) -> List[dict]:
 
 def run_env_recipes(ctx: Ctx, recipes: List[dict], chaos=None) -> List[Tuple[str, dict]]:
     runs = []
+    labels = [rc["label"] for rc in recipes]
+    if len(set(labels)) != len(labels):
+        raise RuntimeError(f"recipe labels must be unique: {sorted(l for l in set(labels) if labels.count(l) > 1)}")
     for rc in recipes:
         ctx.count("env:family:" + rc["family"])
         try:
@@ -357,6 +376,28 @@ def _intkeys(x):
     return x
 
 
+def construction_agrees(cfg: dict, capture: bool = False) -> Tuple[bool, str]:
+    """Is the object the implementation builds from this manager configuration the one the model builds from the same words
+    (both reject, or the same object tokens, space and default observation)?"""
+    rig.set_capture(capture)
+    obj = rig.build_impl(cfg)
+    osp, th = rig.split_cfg(cfg)
+    out = run_driver(EXE, ["reset", f"capture {rig.B(capture)}", rig.rawcfg_line(osp, th), "show", "space", "default"])
+    if obj is None:
+        return out[2] == "rejected", f"implementation rejects ({getattr(rig.build_impl, 'last_error', '?')}), model: {out[2]}"
+    if out[2] != "ok":
+        return False, f"implementation accepts, model: {out[2]}"
+    toks = " ".join(rig.obj_tokens(obj, fresh=True))
+    if toks != out[3]:
+        return False, token_diff(toks, out[3])
+    if rig.parse_val(out[4].split()) != rig.canon_space(obj.space):
+        return False, "space differs: " + str(rig.first_diff(rig.canon_space(obj.space), rig.parse_val(out[4].split())))
+    mv, _ = parse_report(out[5])
+    if mv != rig.canon(obj.default_observation):
+        return False, "default observation differs: " + str(rig.first_diff(rig.canon(obj.default_observation), mv))
+    return True, "same object"
+
+
 def replay_component(r: dict) -> bool:
     """a component-level record (generated configuration + capture flag + the state sequence): re-run the property's oracle"""
     rig.set_capture(bool(r.get("capture", False)))
@@ -400,6 +441,8 @@ def replay(rec: dict) -> bool:
         return dim != "raised" and not bad
     if "recipe" in r:
         return replay_env(r)
+    if "cfg" in r and "diff" in r and "recipe" not in r:
+        return construction_agrees(r["cfg"], bool(r.get("capture", False)))[0]
     if "cfg" in r and (r.get("state") is not None or "states" in r or "problem" in r) and "sig" not in r:
         return replay_component(r)
     if "cfg" in r and r.get("state") is not None:
@@ -440,7 +483,7 @@ def corpus_family(ctx: Ctx):
 
 
 def component_family(ctx: Ctx):
-    n_cases = ctx.scale(220, 4000)
+    n_cases = ctx.scale(220, 3000)
     rng = ctx.rng.fork("obs-components")
     cases = []
     t0 = time.time()
